@@ -281,6 +281,12 @@ void conv_family(sink& out)
     scaled_to<Tag, SI<std::int32_t, -3>, SI<L, 2>>(out, 14);
     scaled_to<Tag, SI<std::int32_t, -2, 10>, SI<L, 0, 10>>(out, 15);
     scaled_to<Tag, SI<L, -1>, SI<L, 0>>(out, 16);
+    // finer scaled_integer -> built-in integer (tie_to_pos_inf and neg_inf: under nearest and native the library has no such conversion -- a hard error, not a constraint)
+    if constexpr (std::is_same_v<Tag, cnl::tie_to_pos_inf_rounding_tag> || std::is_same_v<Tag, cnl::neg_inf_rounding_tag>) {
+        scaled_to<Tag, SI<L, -4>, L>(out, 17);
+        scaled_to<Tag, SI<std::int32_t, -3>, std::int64_t>(out, 18);
+        scaled_to<Tag, SI<std::int16_t, -1>, std::int32_t>(out, 19);
+    }
 }
 
 template<class Tag>
